@@ -7,7 +7,7 @@ reference decoder; decode(encode(t)) == t on every t also gives injectivity.
 import itertools
 import struct
 
-from mc import isa, kernel
+from mc import isa, kernel, encdrv
 from mc.ref import rv32
 
 PROP = 'C01'
@@ -78,6 +78,7 @@ def enc_point(ctx, case):
 def enc_task(ctx, task):
     """task = dict(mn, subs=[list of axes lists], skip=name) : walks each sub-product, de-duplicating by predicate"""
     asm = kernel.boot()
+    encdrv.warm(asm)
     mn = task['mn']
     f = asm.INSTRUCTIONS[mn]
     sig = isa.M32[mn]
